@@ -429,6 +429,9 @@ def compare(L, impl, model):
     wf = tagged(ml, "WFTREE")
     if not wf or wf[0] != "WFTREE true":
         res.append(("the recorded tree does not satisfy the grammar wf_root assumed by the theorems", "", wf[0] if wf else "missing"))
+    t1 = tagged(ml, "T1OK")
+    if not t1 or t1[0] != "T1OK true":
+        res.append(("the recorded tree does not satisfy the work-total consistency t1_ok assumed by C19_shrink_totals", "", t1[0] if t1 else "missing"))
     st = tagged(ml, "STACK")
     if not st or st[0] != "STACK same":
         res.append(("model-internal: explicit-stack enumeration vs recursive enumeration", "", st[0] if st else "missing"))
